@@ -267,7 +267,7 @@ def rule_hook(E, R):
     clo = None
     for c in exprs(body, "Call"):
         if norm(c.get("callee", "")).endswith("::set_hook"):
-            for x in exprs(c["args"][0], "Closure"):
+            for x in exprs_deep(c["args"][0], "Closure"):
                 clo = x
                 break
     if not clo:
@@ -358,7 +358,7 @@ def rule_hook(E, R):
         dc = [c for c in exprs(pay[0]["init"], "MethodCall") if c["m"] == "downcast_ref"] if pay else []
         pname = pay[0]["pat"]["name"] if pay else None
         writes = [w for w in exprs(hr["body"], "Call") if norm(w.get("callee", "")) in ("core::fmt::write", "alloc::fmt::format")]
-        used = any(local_name(p) == pname for w in writes for p in exprs(w, "Path"))
+        used = any(local_name(p) == pname for w in writes for p in exprs_deep(w, "Path"))
         R.check(len(dc) == 2 and used, rule, rname, "the panic payload (&str or String) is written into the recorded text", where=hr["span"])
         # no stale message: the buffer written into is cleared first (out-parameter), or it is a fresh String that replaces the
         # thread's buffer as a whole
